@@ -145,6 +145,24 @@ pub struct TopicCleanTracker {
     persist_tx: mpsc::Sender<String>,
 }
 
+impl Drop for TopicCleanTracker {
+    fn drop(&mut self) {
+        // The background persister only holds a weak reference and stops as soon as the tracker
+        // is gone, dropping whatever it had not written yet. Flush the current state of every
+        // topic so that a marker change that has returned survives a clean shutdown.
+        let snapshot: Vec<(String, CleanMarkerRecord)> = match self.states.read() {
+            Ok(guard) => guard
+                .iter()
+                .map(|(topic, state)| (topic.clone(), state.snapshot()))
+                .collect(),
+            Err(_) => return,
+        };
+        if let Err(err) = self.store.persist_updates(&snapshot) {
+            debug_print!("[clean] persist on drop failed: {}", err);
+        }
+    }
+}
+
 impl TopicCleanTracker {
     pub fn new(store: Arc<CleanMarkerStore>) -> Arc<Self> {
         let (tx, rx) = mpsc::channel::<String>();
